@@ -149,7 +149,7 @@ def run_long(ctx, st):
     by_id, by_name = sweep.codes()
     rng = random.Random(4242 + st['n'])
     tids = [0x101, 0x202, 0x303]
-    letters = 'AAABSKUP'
+    letters = 'AAASKUP'
     p = _parser(ctx)
     state = []
     evs = []
@@ -160,6 +160,9 @@ def run_long(ctx, st):
         # START-heavy on thread 0 so that unmatched STARTs pile up
         q = rng.choice([1, 1, 1, 2, 0, 3]) if rng.random() < 0.5 else rng.choice([1, 2, 2, 0])
         tid = tids[0] if rng.random() < 0.6 else rng.choice(tids[1:])
+        if i == 0 or i == st['n'] - 1:
+            # one operation stays open on thread 0 for the whole history: its window is every record of the thread
+            c, q, tid = 'B', (1 if i == 0 else 2), tids[0]
         name = CODES[c]
         eid = by_name[name] if name else UNKNOWN_ID
         if i == mid:
